@@ -143,6 +143,15 @@ struct RecPrior : public QuadraticPrior<float>
 struct Probe : public OSSPSReconstruction<T>
 {
   std::vector<StepRec> steps;
+  std::string defaults_line() const
+  {
+    return std::to_string(this->enforce_initial_positivity) + " " + vh::hex(static_cast<float>(this->upper_bound)) + " "
+           + vh::hex(this->relaxation_parameter) + " " + vh::hex(this->relaxation_gamma) + " " + std::to_string(this->num_subsets) + " "
+           + std::to_string(this->start_subset_num) + " " + std::to_string(this->num_subiterations) + " "
+           + std::to_string(this->start_subiteration_num) + " " + (this->precomputed_denominator_filename == "" ? "computed" : "given");
+  }
+  int default_ep() const { return this->enforce_initial_positivity; }
+  void use_denominator_of_ones() { this->precomputed_denominator_filename = "1"; }
   void configure(float alpha, float gamma, double ub, int ep)
   {
     this->relaxation_parameter = alpha;
@@ -230,6 +239,7 @@ struct Case
   int prior = 0; // 0 none, 1 quadratic, 2 quadratic declared+made image dependent, 3 not parabolic (error)
   float beta = 0.F;
   bool kappa = false, additive = false;
+  bool denom_ones = false; // `precomputed denominator := 1`
   int weights_kind = 0; // 0 default 3D, 1 default 2D (only_2D), 2 custom random 3x3x3, 3 custom 1x3x3
   uint64_t data_seed = 1;
   std::string prefix;
@@ -328,6 +338,127 @@ build_data(const Case& c, Built& b)
     }
 }
 
+
+// ---------------------------------------------------------------------------------------------- the property's definitions
+// Evaluated directly (double precision) from the explicit system matrix, the data and the prior's parameters:
+//   grad_S Phi(x)_j = sum_{b in S} P_bj ( y_b / (P x + a)_b - 1 ) - (beta / N) sum_d w_d kappa_j kappa_{j+d} (x_j - x_{j+d})
+//   (-H 1)_j        = sum_b P_bj (P 1)_b / y_b
+//   curvature_j     = beta sum_d w_d kappa_j kappa_{j+d}
+// with the library's quotient conventions (numerator <= 1e-6 * max of its viewgram -> 0; quotient capped at 10000).
+struct RowD
+{
+  int vg, subset;
+  double y, a;
+  std::vector<std::pair<int, double>> el;
+};
+struct Defs
+{
+  std::vector<RowD> rows;
+  int nvg = 0, nsub = 1, nz = 0, ny = 0, nx = 0;
+  bool have_prior = false, dep = false;
+  double beta = 0;
+  int wminz = 0, wmaxz = -1, wminy = 0, wmaxy = -1, wminx = 0, wmaxx = -1;
+  std::vector<double> w, kappa;
+
+  static double quotient(double small, double num, double den)
+  {
+    if (num <= small)
+      return 0;
+    if (num > 10000. * den)
+      return 10000.;
+    return num / den;
+  }
+  // value and sum of |terms| of the penalised sub-gradient
+  void grad(int subset, const V& x, std::vector<double>& g, std::vector<double>& mag) const
+  {
+    const std::size_t n = x.size();
+    g.assign(n, 0.);
+    mag.assign(n, 0.);
+    std::vector<double> ymax(nvg, 0.);
+    for (auto& r : rows)
+      ymax[r.vg] = std::max(ymax[r.vg], r.y);
+    for (auto& r : rows)
+      {
+        if (r.subset != subset)
+          continue;
+        double den = r.a, mden = std::fabs(r.a);
+        for (auto& e : r.el)
+          {
+            den += e.second * x[e.first];
+            mden += std::fabs(e.second * x[e.first]);
+          }
+        const double q = quotient(std::max(ymax[r.vg] * 1e-6, 0.), r.y, den);
+        const double amp = den != 0 ? mden / std::fabs(den) : 1.;
+        for (auto& e : r.el)
+          {
+            g[e.first] += e.second * (q - 1.);
+            mag[e.first] += e.second * (q * amp + 1.);
+          }
+      }
+    if (have_prior && beta != 0)
+      for (int z = 0; z < nz; ++z)
+        for (int y = 0; y < ny; ++y)
+          for (int xx = 0; xx < nx; ++xx)
+            {
+              const int j = (z * ny + y) * nx + xx;
+              double pg = 0, pm = 0;
+              for (int dz = std::max(wminz, -z); dz <= std::min(wmaxz, nz - 1 - z); ++dz)
+                for (int dy = std::max(wminy, -y); dy <= std::min(wmaxy, ny - 1 - y); ++dy)
+                  for (int dx = std::max(wminx, -xx); dx <= std::min(wmaxx, nx - 1 - xx); ++dx)
+                    {
+                      const int k = ((z + dz) * ny + (y + dy)) * nx + (xx + dx);
+                      const double ww = w[((dz - wminz) * (wmaxy - wminy + 1) + (dy - wminy)) * (wmaxx - wminx + 1) + (dx - wminx)];
+                      const double kk = kappa.empty() ? 1. : kappa[j] * kappa[k];
+                      pg += ww * kk * (static_cast<double>(x[j]) - x[k]);
+                      pm += std::fabs(ww * kk) * (std::fabs(x[j]) + std::fabs(x[k]));
+                    }
+              g[j] -= beta * pg / nsub;
+              mag[j] += std::fabs(beta) * pm / nsub;
+            }
+  }
+  void d0(std::size_t n, std::vector<double>& d) const
+  {
+    d.assign(n, 0.);
+    std::vector<double> fmax(nvg, 0.), f1(rows.size(), 0.);
+    for (std::size_t i = 0; i < rows.size(); ++i)
+      {
+        for (auto& e : rows[i].el)
+          f1[i] += e.second;
+        fmax[rows[i].vg] = std::max(fmax[rows[i].vg], f1[i]);
+      }
+    for (std::size_t i = 0; i < rows.size(); ++i)
+      {
+        if (rows[i].subset < 0 || rows[i].subset >= nsub)
+          continue;
+        const double q = quotient(std::max(fmax[rows[i].vg] * 1e-6, 0.), f1[i], rows[i].y);
+        for (auto& e : rows[i].el)
+          d[e.first] += e.second * q;
+      }
+  }
+  void curv(const V& x, std::vector<double>& c) const
+  {
+    c.assign(x.size(), 0.);
+    if (!have_prior || beta == 0)
+      return;
+    for (int z = 0; z < nz; ++z)
+      for (int y = 0; y < ny; ++y)
+        for (int xx = 0; xx < nx; ++xx)
+          {
+            const int j = (z * ny + y) * nx + xx;
+            double s = 0;
+            for (int dz = std::max(wminz, -z); dz <= std::min(wmaxz, nz - 1 - z); ++dz)
+              for (int dy = std::max(wminy, -y); dy <= std::min(wmaxy, ny - 1 - y); ++dy)
+                for (int dx = std::max(wminx, -xx); dx <= std::min(wmaxx, nx - 1 - xx); ++dx)
+                  {
+                    const int k = ((z + dz) * ny + (y + dy)) * nx + (xx + dx);
+                    const double ww = w[((dz - wminz) * (wmaxy - wminy + 1) + (dy - wminy)) * (wmaxx - wminx + 1) + (dx - wminx)];
+                    s += ww * (kappa.empty() ? 1. : kappa[j] * kappa[k]);
+                  }
+            c[j] = beta * s * (dep ? 1. + static_cast<double>(x[j]) * x[j] : 1.);
+          }
+  }
+};
+
 struct Engine
 {
   shared_ptr<ProjMatrixByBinUsingRayTracing> pm;
@@ -371,6 +502,8 @@ make_engine(const Case& c, const Built& b, int start_subiter, int ep, const std:
     }
   e.rec.reset(new Probe);
   e.rec->configure(c.alpha, c.gamma, c.ub, ep);
+  if (c.denom_ones)
+    e.rec->use_denominator_of_ones();
   e.rec->set_objective_function_sptr(e.obj);
   e.rec->set_num_subsets(c.nsub);
   e.rec->set_start_subset_num(c.start_subset);
@@ -404,7 +537,8 @@ cfg_line(const Case& c, const Built& b, int nvg)
   const char* pk = c.prior == 0 ? "none" : c.prior == 1 ? "quad" : c.prior == 2 ? "quaddep" : "notparabolic";
   s << "cfg " << c.id << " dims " << nz << " " << c.nxy << " " << c.nxy << " ns " << c.nsub << " ss " << c.start_subset << " alpha "
     << vh::hex(c.alpha) << " gamma " << vh::hex(c.gamma) << " ub " << vh::hex(static_cast<float>(c.ub)) << " prior " << pk
-    << " beta " << vh::hex(c.beta) << " kappa " << (c.kappa ? 1 : 0) << " add " << (c.additive ? 1 : 0) << " nvg " << nvg << " geom "
+    << " beta " << vh::hex(c.beta) << " kappa " << (c.kappa ? 1 : 0) << " add " << (c.additive ? 1 : 0) << " nvg " << nvg << " dones " << (c.denom_ones ? 1 : 0)
+    << " geom "
     << c.ndet << "," << c.nrings << "," << c.maxdelta << "," << c.ntang << "," << vh::hex(c.voxel) << "," << (c.restrict_fov ? 1 : 0) << ","
     << c.sym90 << c.sym180 << c.symswapseg << c.symswaps << c.symz << "," << c.weights_kind << "," << c.data_seed;
   return s.str();
@@ -418,7 +552,8 @@ struct RunState
 };
 
 static void
-emit_step(const Case& c, const StepRec& r, const V& d0, int start, bool levelB, bool prior_nonzero, RunState& rs, const V& sens0mask)
+emit_step(const Case& c, const StepRec& r, const V& d0, int start, bool levelB, bool prior_nonzero, RunState& rs, const V& sens0mask,
+          const Defs& defs)
 {
   const std::size_t n = r.before.size();
   const float ubf = static_cast<float>(c.ub);
@@ -469,6 +604,32 @@ emit_step(const Case& c, const StepRec& r, const V& d0, int start, bool levelB, 
     if (r.g_subset != r.subset || r.g_calls != 1)
       ofail("sub-gradient evaluated for subset " + std::to_string(r.g_subset) + " (" + std::to_string(r.g_calls)
             + " calls) but the schedule gives subset " + std::to_string(r.subset));
+  }
+  // (2b) the gradient is the gradient of the penalised objective Phi of the property; the curvature is the prior's
+  {
+    ++oracle_checks;
+    std::vector<double> gd, gm;
+    defs.grad(r.g_subset, gx, gd, gm);
+    for (std::size_t j = 0; j < n; ++j)
+      if (!(std::fabs(gd[j] - g[j]) <= 1e-4 * (gm[j] + std::fabs(gd[j])) + 1e-30))
+        {
+          ofail("sub-gradient of voxel " + std::to_string(j) + " is not the gradient of the penalised objective: got " + vh::hex(g[j])
+                + " definition " + vh::hex(gd[j]));
+          break;
+        }
+    if (r.have_c)
+      {
+        ++oracle_checks;
+        std::vector<double> cd;
+        defs.curv(r.cx, cd);
+        for (std::size_t j = 0; j < n; ++j)
+          if (!(std::fabs(cd[j] - r.c[j]) <= 1e-4 * std::fabs(cd[j]) + 1e-30))
+            {
+              ofail("surrogate curvature of voxel " + std::to_string(j) + " is not beta sum w kappa kappa: got " + vh::hex(r.c[j])
+                    + " definition " + vh::hex(cd[j]));
+              break;
+            }
+      }
   }
   // (3) D of this run
   const bool recompute = prior_nonzero && c.prior == 2;
@@ -582,6 +743,7 @@ file_exists(const std::string& f)
   return ::stat(f.c_str(), &st) == 0;
 }
 
+static int g_default_ep = 0;
 static long n_cases = 0, n_steps = 0, n_restarts = 0, n_restart_equal = 0, n_setup_err = 0;
 static std::map<std::string, long> hist;
 
@@ -671,6 +833,32 @@ run_case(Case c, bool levelB, bool restarts, bool expect_err)
       if (c.kappa)
         op("kappa | " + hv(flat(*b.kappa)), "ok");
     }
+  Defs defs;
+  defs.nvg = nvg;
+  defs.nsub = c.nsub;
+  defs.nz = nz;
+  defs.ny = defs.nx = c.nxy;
+  if (c.prior == 1 || c.prior == 2)
+    {
+      defs.have_prior = true;
+      defs.dep = c.prior == 2;
+      defs.beta = c.beta;
+      Array<3, float> w = e.qprior->get_weights();
+      if (w.get_length() > 0)
+        {
+          defs.wminz = w.get_min_index();
+          defs.wmaxz = w.get_max_index();
+          defs.wminy = w[defs.wminz].get_min_index();
+          defs.wmaxy = w[defs.wminz].get_max_index();
+          defs.wminx = w[defs.wminz][defs.wminy].get_min_index();
+          defs.wmaxx = w[defs.wminz][defs.wminy].get_max_index();
+          for (auto it = w.begin_all(); it != w.end_all(); ++it)
+            defs.w.push_back(*it);
+        }
+      if (c.kappa)
+        for (auto it = b.kappa->begin_all_const(); it != b.kappa->end_all_const(); ++it)
+          defs.kappa.push_back(*it);
+    }
   long nrows = 0, nelems = 0;
   for (int s = b.pdi->get_min_segment_num(); s <= b.pdi->get_max_segment_num(); ++s)
     for (int v = b.pdi->get_min_view_num(); v <= b.pdi->get_max_view_num(); ++v)
@@ -687,14 +875,31 @@ run_case(Case c, bool levelB, bool restarts, bool expect_err)
               ProjMatrixElemsForOneBin row;
               e.pm->get_proj_matrix_elems_for_one_bin(row, Bin(s, v, ax, tp));
               std::ostringstream l;
+              RowD rd;
+              rd.vg = vs_id[std::make_pair(v, s)];
+              rd.subset = sub;
+              rd.y = yv[ax][tp];
+              rd.a = av[ax][tp];
+              int nin = 0;
+              for (auto el = row.begin(); el != row.end(); ++el)
+                if (el->coord1() >= minz && el->coord1() <= b.img->get_max_index())
+                  ++nin;
               l << "row " << vs_id[std::make_pair(v, s)] << " " << sub << " " << vh::hex(yv[ax][tp]) << " " << vh::hex(av[ax][tp]) << " "
-                << row.size();
+                << nin;
               for (auto el = row.begin(); el != row.end(); ++el)
                 {
+                  // ProjMatrixElemsForOneBin::forward_project / back_project skip elements outside the image's plane range
+                  if (el->coord1() < minz || el->coord1() > b.img->get_max_index())
+                    {
+                      hist["matrix_elements_outside_image_planes"]++;
+                      continue;
+                    }
                   const int j = ((el->coord1() - minz) * c.nxy + (el->coord2() - miny)) * c.nxy + (el->coord3() - minx);
                   l << " " << j << " " << vh::hex(el->get_value());
+                  rd.el.push_back(std::make_pair(j, static_cast<double>(el->get_value())));
                   ++nelems;
                 }
+              defs.rows.push_back(rd);
               op(l.str(), "ok");
               ++nrows;
             }
@@ -718,15 +923,25 @@ run_case(Case c, bool levelB, bool restarts, bool expect_err)
   const std::string d0file = c.prefix + "_precomputed_denominator.hv";
   V d0;
   ++oracle_checks;
-  if (!file_exists(d0file))
+  if (c.denom_ones)
     {
-      ofail("set_up did not write the precomputed denominator");
-      return true;
+      // `precomputed denominator := 1`: nothing is written; the denominator (ones) is only observed through the updates
+      d0.assign(b.init.size(), 1.F);
+      op("setup 1 " + std::to_string(c.nsubiter) + " " + std::to_string(c.ep) + " | " + hv(b.init), "ok | " + hv(flat(*t)) + " | unobserved");
     }
-  d0 = flat(*read_from_file<T>(d0file));
-  op("setup 1 " + std::to_string(c.nsubiter) + " " + std::to_string(c.ep) + " | " + hv(b.init), "ok | " + hv(flat(*t)) + " | " + hv(d0));
-  op("d0sync | " + hv(d0), "ok");
+  else
+    {
+      if (!file_exists(d0file))
+        {
+          ofail("set_up did not write the precomputed denominator");
+          return true;
+        }
+      d0 = flat(*read_from_file<T>(d0file));
+      op("setup 1 " + std::to_string(c.nsubiter) + " " + std::to_string(c.ep) + " | " + hv(b.init), "ok | " + hv(flat(*t)) + " | " + hv(d0));
+      op("d0sync | " + hv(d0), "ok");
+    }
   // oracle: D0 = -(approximate Hessian of the log-likelihood applied to the uniform image), non-negative
+  if (!c.denom_ones)
   {
     ++oracle_checks;
     shared_ptr<T> ones(t->get_empty_copy());
@@ -740,6 +955,18 @@ run_case(Case c, bool levelB, bool restarts, bool expect_err)
         okd = false;
     if (!okd)
       ofail("precomputed denominator is not minus the approximate Hessian (without penalty) applied to the uniform image");
+    ++oracle_checks;
+    {
+      std::vector<double> dd;
+      defs.d0(d0.size(), dd);
+      for (std::size_t j = 0; j < d0.size(); ++j)
+        if (!(std::fabs(dd[j] - d0[j]) <= 1e-4 * std::fabs(dd[j]) + 1e-30))
+          {
+            ofail("data part of the denominator of voxel " + std::to_string(j) + " is not sum_b P_bj (P 1)_b / y_b: got " + vh::hex(d0[j])
+                  + " definition " + vh::hex(dd[j]));
+            break;
+          }
+    }
     ++oracle_checks;
     for (std::size_t j = 0; j < d0.size(); ++j)
       if (!(d0[j] >= 0.F))
@@ -765,7 +992,7 @@ run_case(Case c, bool levelB, bool restarts, bool expect_err)
     RunState rs;
     for (auto& r : full)
       {
-        emit_step(c, r, d0, 1, levelB, prior_nonzero, rs, sens0mask);
+        emit_step(c, r, d0, 1, levelB, prior_nonzero, rs, sens0mask, defs);
         ++n_steps;
       }
     op("endrun", std::to_string(full.size()));
@@ -813,14 +1040,24 @@ run_case(Case c, bool levelB, bool restarts, bool expect_err)
               ofail("set_up of the resumed run failed at k=" + std::to_string(k));
               continue;
             }
-          V d02 = flat(*read_from_file<T>(pfx2 + "_precomputed_denominator.hv"));
-          op("setup " + std::to_string(k + 1) + " " + std::to_string(c.nsubiter) + " " + std::to_string(ep2) + " | " + hv(saved_v),
-             "ok | " + hv(flat(*saved)) + " | " + hv(d02));
-          op("d0sync | " + hv(d02), "ok");
+          V d02;
+          if (c.denom_ones)
+            {
+              d02.assign(saved_v.size(), 1.F);
+              op("setup " + std::to_string(k + 1) + " " + std::to_string(c.nsubiter) + " " + std::to_string(ep2) + " | " + hv(saved_v),
+                 "ok | " + hv(flat(*saved)) + " | unobserved");
+            }
+          else
+            {
+              d02 = flat(*read_from_file<T>(pfx2 + "_precomputed_denominator.hv"));
+              op("setup " + std::to_string(k + 1) + " " + std::to_string(c.nsubiter) + " " + std::to_string(ep2) + " | " + hv(saved_v),
+                 "ok | " + hv(flat(*saved)) + " | " + hv(d02));
+              op("d0sync | " + hv(d02), "ok");
+            }
           e2.rec->reconstruct(saved);
           RunState rs;
           for (auto& r : e2.rec->steps)
-            emit_step(c, r, d02, k + 1, false, prior_nonzero, rs, sens0mask);
+            emit_step(c, r, d02, k + 1, false, prior_nonzero, rs, sens0mask, defs);
           op("endrun", std::to_string(e2.rec->steps.size()));
           ++n_restarts;
           // ORACLE: resuming reproduces the uninterrupted run, bitwise
@@ -849,9 +1086,16 @@ run_case(Case c, bool levelB, bool restarts, bool expect_err)
             ++n_restart_equal;
           else if (ep2 == 1 && !all_positive)
             {
-              // requested by the user (enforce_initial_positivity is OFF by default in OSSPS): exact zeros produced by the
-              // clamp are lifted by set_up; not a violation of the property as stated for the default configuration.
-              hist["resume_differs_because_enforce_initial_positivity_requested"]++;
+              // exact zeros produced by the clamp are lifted by set_up of the resumed run
+              if (g_default_ep != 0)
+                known("restart:enforce-initial-positivity-lifts-exact-zeros",
+                      "with the DEFAULT enforce_initial_positivity (on) the set_up of a resumed OSSPS run replaces the exact zeros that "
+                      "threshold_upper_lower produced by small positive values, so the resumed run differs from the uninterrupted one "
+                      "(first differing sub-iteration "
+                          + std::to_string(first_diff) + ")");
+              else
+                // requested explicitly by the user (OFF by default in OSSPS): not a violation of the property as stated
+                hist["resume_differs_because_enforce_initial_positivity_requested"]++;
             }
           else if (prior_nonzero && nonident_nonzero)
             known("restart:fill-nonidentifiable-rezeroes-penalty-driven-voxels",
@@ -924,6 +1168,12 @@ main(int argc, char** argv)
   const float gammas[] = { 0.1F, 0.F, 0.5F, 1.F, 0.25F };
   const double ubs[] = { static_cast<double>(std::numeric_limits<float>::max()), 1.5, 3., 0.75, 8. };
 
+  // what a freshly constructed object is set to (set_defaults)
+  {
+    Probe fresh;
+    g_default_ep = fresh.default_ep();
+    op("defaults", fresh.defaults_line());
+  }
   const int ngeoms = thorough ? 14 : 4;
   int id = 0;
   for (int gidx = 0; gidx < ngeoms; ++gidx)
@@ -984,6 +1234,7 @@ main(int argc, char** argv)
               c.kappa = c.prior && rng.coin();
               c.weights_kind = c.prior ? rng.range(0, 3) : 0;
               c.additive = rng.coin();
+              c.denom_ones = rng.range(0, 7) == 0 || (gidx == 1 && ns == 2 && var == 0);
               c.data_seed = rng.next();
               c.prefix = dir + "/c" + std::to_string(c.id);
               const bool levelB = true;
@@ -995,6 +1246,8 @@ main(int argc, char** argv)
                   break;
                 }
               hist["ns=" + std::to_string(ns)]++;
+              if (c.denom_ones)
+                hist["denominator_of_ones"]++;
               hist[std::string("prior=") + (c.prior == 0 ? "none" : c.prior == 1 ? (c.beta == 0 ? "quad-beta0" : "quad") : "quaddep")]++;
             }
         }
